@@ -227,7 +227,7 @@ Proof. repeat split; try (vm_compute; reflexivity). intro H. discriminate H. Qed
    model is Struct/CopyHeap.v (objects at heap locations; deepcopy parametrised by the copy policy that
    harness/genmods/copy_sites.py re-reads from Structure.__deepcopy__ and the wrappers' __deepcopy__ on
    every run, Gen/CopySites.v); the proofs are in Struct/CopyHeapProofs.v. *)
-From TP Require Import Struct.CopyHeap Struct.CopyHeapProofs Gen.CopySites Struct.CopySitesSafe.
+From TP Require Import Struct.CopyHeap Struct.CopyHeapProofs Struct.StatePolicy Struct.StatePolicyProofs Gen.CopySites Struct.CopySitesSafe.
 
 (* A deep copy under a policy that re-uses only values of deeply immutable types: the heap is extended and
    never written, the copy denotes the value of the original, and no mutable object is reachable from both. *)
@@ -285,6 +285,26 @@ Theorem C11_shallow_copy :
                       cop_pre h' y [] witness_op /\ abs 4 (cop_heap h' witness_op) x <> abs 4 h' x).
 Proof. exact (conj copy_shallow_value copy_shallow_shares). Qed.
 
+(* the pickle round trip under the __getstate__ policy read from the CURRENT source (Gen/CopySites.v): equal
+   to the original with the same string whenever only declared fields are stored and no name is None-marked;
+   stops compiling when __getstate__ no longer keeps every declared name present in __dict__ *)
+Theorem C11_pickle_eq_today : forall c undef num_str str_repr enum_vrepr x,
+    pickle_safe c x = true ->
+    exists y, pickle_rt_pol state_sites c x = Some y /\
+              inst_eq c undef y x = true /\ inst_eq c undef x y = true /\
+              inst_str num_str str_repr enum_vrepr y = inst_str num_str str_repr enum_vrepr x.
+Proof.
+  intros c undef num_str str_repr enum_vrepr x.
+  exact (pickle_pol_eq num_str str_repr enum_vrepr state_sites c undef x state_sites_safe).
+Qed.
+
+(* a __getstate__ that keeps only truthy values loses a stored 0 *)
+Theorem C11_getstate_truthy_refuted :
+    exists x y, pickle_safe gs_class x = true /\
+                pickle_rt_pol {| sp_fields := GsAllFields; sp_filter := GsTruthy; sp_value := GsFieldValue |} gs_class x = Some y /\
+                inst_eq gs_class true y x = false.
+Proof. exact getstate_truthy_refuted. Qed.
+
 (* what the executable check run on observed object graphs reports is real sharing *)
 Theorem C11_separation_check_sound : forall fuel h a b l,
     In l (shared_mutable fuel h a b) -> reach h a l /\ reach h b l /\ mutable_at h l = true.
@@ -296,6 +316,8 @@ Print Assumptions C11_deepcopy_independent.
 Print Assumptions C11_pickle_independent.
 Print Assumptions C11_unsafe_policy_witness.
 Print Assumptions C11_shallow_copy.
+Print Assumptions C11_pickle_eq_today.
+Print Assumptions C11_getstate_truthy_refuted.
 Print Assumptions C11_separation_check_sound.
 
 (* non-vacuity: a Team-like instance (a Tuple field holding a nested instance, an Array field whose wrapper
